@@ -75,14 +75,14 @@ pub fn walk(schema: &Schema, b: &[u8], pos: usize, w: &mut Walk, depth: u32) -> 
         }
         Schema::Vector(item, _) => {
             let n = le_u64(b, pos)?;
-            if n > 4 { return None; }
+            if n > 64 { return None; }
             let mut p = pos + 8;
             let mut i = 0;
             while i < n { p = walk(item, b, p, w, depth + 1)?; i += 1; }
             Some(p)
         }
         Schema::Array(a) => {
-            if a.count > 8 { return None; }
+            if a.count > 64 { return None; }
             let mut p = pos;
             let mut i = 0;
             while i < a.count { p = walk(&a.item_type, b, p, w, depth + 1)?; i += 1; }
@@ -121,4 +121,74 @@ pub fn schema_faithful<T: Fam, S: Src>(s: &mut S) {
     let end = walk(&schema, &buf, 0, &mut w, 0);
     assert!(end == Some(buf.len()), "C12: a reader driven only by the schema parses the data completely and without error");
     assert!(!has_recursion(&schema, 0), "C12: non-recursive types never yield recursion markers");
+}
+
+/// C12 for library types (native enumeration): same statement for a value of any serializable type.
+pub fn schema_faithful_value<T: savefile::Serialize + savefile::WithSchema>(v: &T, version: u32, what: &str) {
+    let schema = savefile::get_schema::<T>(version);
+    let mut buf: Vec<u8> = Vec::with_capacity(64);
+    assert!(Serializer::bare_serialize(&mut buf, version, v).is_ok());
+    let mut w = Walk::default();
+    let end = walk(&schema, &buf, 0, &mut w, 0);
+    assert!(end == Some(buf.len()), "C12: a reader driven only by the schema parses the data completely and without error [{}]", what);
+    assert!(!has_recursion(&schema, 0), "C12: non-recursive types never yield recursion markers [{}]", what);
+}
+
+/// C12, library containers (small-scope values)
+pub fn schema_library<S: Src>(s: &mut S) {
+    use std::collections::{BTreeMap, BTreeSet, VecDeque};
+    let (a, b, c) = (s.u8(), s.u32(), s.u16());
+    let n = s.u8();
+    s.assume(n <= 2);
+    let mut v32: Vec<u32> = Vec::new();
+    let mut i = 0;
+    while i < n { v32.push(b.wrapping_add(i as u32)); i += 1; }
+    schema_faithful_value(&v32, 0, "Vec<u32>");
+    schema_faithful_value(&(a, b), 0, "(u8,u32)");
+    schema_faithful_value(&(a, b, c), 0, "(u8,u32,u16)");
+    schema_faithful_value(&Some(c), 0, "Option<u16>");
+    schema_faithful_value(&None::<u16>, 0, "Option<u16>");
+    schema_faithful_value(&[c, c.wrapping_add(1)], 0, "[u16;2]");
+    schema_faithful_value(&Box::new(b), 0, "Box<u32>");
+    schema_faithful_value(&String::from(if s.bool() { "ab" } else { "" }), 0, "String");
+    let mut m: BTreeMap<u32, Vec<u32>> = BTreeMap::new();
+    if n >= 1 { m.insert(b, v32.clone()); }
+    schema_faithful_value(&m, 0, "BTreeMap<u32,Vec<u32>>");
+    let mut m2: BTreeMap<String, Box<String>> = BTreeMap::new();
+    if n >= 1 { m2.insert("k".to_string(), Box::new("v".to_string())); }
+    schema_faithful_value(&m2, 0, "BTreeMap<String,Box<String>>");
+    let mut m3: BTreeMap<u8, [u8; 4]> = BTreeMap::new();
+    if n >= 1 { m3.insert(a, [a, a, a, a]); }
+    schema_faithful_value(&m3, 0, "BTreeMap<u8,[u8;4]>");
+    let mut bs: BTreeSet<u16> = BTreeSet::new();
+    if n >= 1 { bs.insert(c); }
+    schema_faithful_value(&bs, 0, "BTreeSet<u16>");
+    let mut dq: VecDeque<u32> = VecDeque::new();
+    if n >= 1 { dq.push_back(b); dq.push_front(b.wrapping_add(1)); }
+    schema_faithful_value(&dq, 0, "VecDeque<u32>");
+    schema_faithful_value(&std::time::Duration::from_secs(b as u64), 0, "Duration");
+}
+
+/// C12 at an OLDER version: EVerMid { A, #[savefile_versions = "2.."] B(u32), C(u16) } written at version 1
+/// (variants A and C exist): the version-1 schema must describe those bytes.
+pub fn schema_evermid_old<S: Src>(s: &mut S) {
+    use crate::family_gen::EVerMid;
+    let v = if s.bool() { EVerMid::A } else { EVerMid::C(s.u16()) };
+    schema_faithful_value(&v, 1, "EVerMid @ version 1");
+}
+
+/// C12 on three library types whose hand-written schemas are suspected unfaithful (one harness each so that a
+/// finding is keyed to one type).
+pub fn schema_result<S: Src>(s: &mut S) {
+    let v: Result<u8, u16> = if s.bool() { Ok(s.u8()) } else { Err(s.u16()) };
+    schema_faithful_value(&v, 0, "Result<u8,u16>");
+}
+pub fn schema_hashmap_guard<S: Src>(s: &mut S) {
+    let mut m: std::collections::HashMap<u32, Vec<u32>> = std::collections::HashMap::new();
+    if s.bool() { m.insert(s.u32(), vec![1, 2]); }
+    schema_faithful_value(&m, 0, "HashMap<u32,Vec<u32>>");
+}
+pub fn schema_socketaddr<S: Src>(s: &mut S) {
+    let a = std::net::SocketAddr::new(std::net::IpAddr::V4(std::net::Ipv4Addr::new(s.u8(), 0, 0, 1)), s.u16());
+    schema_faithful_value(&a, 0, "SocketAddr");
 }
